@@ -18,18 +18,18 @@ PROPERTY = "C19"
 LEVEL = "fault_enumeration"
 RULE = ("E1 x fault sequences: accounts (built-in per region, custom with '+@_'), device ids in both byte orders, token lists with "
         "the matching entry absent / first / middle / last / among near misses (one hex digit off, other letter case, prefix); per "
-        "request (login-id, login, getToken) every answer sequence over {ok, timeout, HTTP 500, API error} up to the retry budget "
-        "(10 patterns each, 1000 flows). The real NetHomePlusCloud runs over httpx.MockTransport against a reference server that "
+        "request (login-id, login, getToken) every answer sequence over {ok, timeout, HTTP 500/404/302, API error, connection dropped, undecodable body} up to the retry budget "
+        "(14 patterns each, 2744 flows). The real NetHomePlusCloud runs over httpx.MockTransport against a reference server that "
         "verifies signature, constant fields, time stamp, login-id/password derivation and session id of EVERY request. Oracle: no "
         "request rejected by the server; attempts per request as the retry contract says; (token,key) of the exact match only; "
         "failures are CloudError. Discover.discover(auto_connect=True) against a simulated V3 device whose credentials are "
-        "registered under the little- or big-endian udpid must end authenticated with them. non-trivial = every flow")
+        "registered under the little- or big-endian udpid (ids include some whose udpid starts or ends with a zero byte) must end authenticated with them. non-trivial = every flow")
 ASSUMPTIONS = ["the reference server encodes the NetHome Plus contract as implemented by known-working clients (sign = sha256(path + "
                "sorted query + app key), password = sha256(loginId + sha256(pw) + app key))",
                "like the real cloud, the server answers an unregistered udpid with an entry that the device will not accept"]
 PATTERNS = [("ok",), ("timeout", "ok"), ("timeout", "timeout", "ok"), ("timeout", "timeout", "timeout"),
             ("500",), ("timeout", "500"), ("timeout", "timeout", "500"), ("api",), ("timeout", "api"), ("timeout", "timeout", "api"),
-            ("302",), ("timeout", "404")]
+            ("302",), ("timeout", "404"), ("proto",), ("timeout", "decode")]
 EPS = ["/v1/user/login/id/get", "/v1/user/login", "/v1/iot/secure/getToken"]
 ACCOUNTS = [("US", None, None), ("DE", None, None), ("KR", None, None), ("US", "user+tag@example_mail.com", "pa55_word+@"),
             ("DE", "a@b.c", "x"), ("US", "first last&co=1%@example.com", "pass word")]
@@ -257,9 +257,22 @@ def run_discover2(st: Stats, pidx: int):
                 w.close()
 
 
+_SPECIAL = []
+
+
+def special_ids():
+    """Device ids whose derived udpid has a zero first byte / zero last byte (little- and big-endian derivation)."""
+    if not _SPECIAL:
+        for endian in ("little", "big"):
+            for test in (lambda u: u[0] == 0, lambda u: u[-1] == 0, lambda u: u[0] < 0x10 and u[0] != 0):
+                _SPECIAL.append(next(d for d in range(0x0000_7000_0000_0001, 0x0000_7000_0010_0000)
+                                     if test(rc.udpid(d.to_bytes(6, endian)))))
+    return tuple(_SPECIAL)
+
+
 def run_discover(st: Stats, variant: int):
     """auto_connect discovery of a V3 device registered under the little- or big-endian udpid."""
-    for did in (0x0000_1122_3344_5566 & (2 ** 48 - 1), 1, 0xA1B2C3D4E5F6, 0x00FF00FF00FF):
+    for did in (0x0000_1122_3344_5566 & (2 ** 48 - 1), 1, 0xA1B2C3D4E5F6, 0x00FF00FF00FF) + special_ids():
         for endian in ("little", "big"):
             for acc, unknown in ((ACCOUNTS[variant], "error"), (ACCOUNTS[(variant + 3) % len(ACCOUNTS)], "silent")):
                 w = World()
